@@ -13,6 +13,7 @@ import Kskm.Json
 import Kskm.Ops.Core
 import Kskm.Ops.Signer
 import Kskm.Keymaster
+import Kskm.XmlSpec
 open Lean
 namespace Kskm.Ops
 
@@ -52,6 +53,37 @@ def trustanchorOp : Op := fun j => do
         ("output", .str kind), ("path", toJson path), ("content", .str content)])]
     | .error f => toJson f
   pure (Json.mkObj [("result", out), ("log", logToJson s.log)])
+
+/-! ### C18: the specification reader `XmlSpec.stdRead` on a document text -/
+
+partial def specTreeJson : XmlSpec.XmlTree → Json
+  | .text s => Json.mkObj [("text", .str (String.ofList s))]
+  | .elem n a cs => Json.mkObj [
+      ("name", .str (String.ofList n)),
+      ("attrs", .arr (a.map (fun p => Json.arr #[.str (String.ofList p.1), .str (String.ofList p.2)])).toArray),
+      ("children", .arr (cs.map specTreeJson).toArray)]
+
+/-- `{"op":"std_read","text":…}` → `{"tree":…}` | `"malformed"` | `"outside"` -/
+def stdReadOp : Op := fun j => do
+  let text : String ← arg j "text"
+  pure (match XmlSpec.stdRead text.toList with
+    | .ok t => Json.mkObj [("tree", specTreeJson t)]
+    | .error .malformed => .str "malformed"
+    | .error .outside => .str "outside")
+
+deriving instance FromJson for KeyDigest
+
+/-- `{"op":"ta_doc","id":…,"source":…,"zone":…,"keyDigests":[…]}`: the model's `TrustAnchor.to_xml_doc()` for a
+    given anchor, and the specification reader's answer on that text -/
+def taDocOp : Op := fun j => do
+  let ta : TrustAnchorDoc :=
+    { id := (← arg j "id"), source := (← arg j "source"), zone := (← arg j "zone"), keyDigests := (← arg j "keyDigests") }
+  let doc := ta.toXmlDoc
+  let read : Json := match XmlSpec.stdRead doc.toList with
+    | .ok t => Json.mkObj [("tree", specTreeJson t)]
+    | .error .malformed => .str "malformed"
+    | .error .outside => .str "outside"
+  pure (Json.mkObj [("doc", .str doc), ("read", read)])
 
 /-! ### C19: store codec -/
 
@@ -148,6 +180,8 @@ def runBoth {α} [ToJson α] (j : Json) (f : List P11Module → Km.Prog α) : Ex
 
 def pkgIOps : List (String × Op) := [
   ("trustanchor", trustanchorOp),
+  ("std_read", stdReadOp),
+  ("ta_doc", taDocOp),
   ("km_keygen", fun j => do
       let cfg : KmCfgJ ← arg j "config"; let ext ← externalsOf j
       let alg : Nat ← arg j "algorithm"; let size : Option Nat ← optArg j "keySize"
